@@ -216,7 +216,7 @@ def handle (args : List String) : String :=
     let evs := e.log.map showEvent
     let fin := s!"END wallet={showRat e.w.wallet} " ++ " ".intercalate ((List.range s.cfg.nsym).map (fun i =>
       let p := Acc.getD e.w.pos i; s!"pos{i}={showRat p.qty}")) ++ s!" trades={e.w.trades.length} liq={e.liquidations}"
-    " ; ".intercalate (evs ++ [fin])
+    " ; ".intercalate (if e.err.isSome then evs else evs ++ [fin])
   | _ => "bad-op"
 
 end Driver.Eng
